@@ -15,16 +15,14 @@ def _replay(beh):
     d = beh["desc"]
     dtype = bind.DT[d["dt"]]
     fails = []
-    A = bind.tensor(beh["dense"], torch.float64)
+    A, X, _, _ = e2.oracles(beh)
     path = d["solve_path"]
     obs = "?"
     try:
         op = bind.build(beh["term"], dtype)
         B = {k: bind.tensor(v, dtype) for k, v in beh["rhs"].items()}
-        X = {k: e2.rational(v) for k, v in beh["solve"].items()}
-        X["vec"] = X["vec"].squeeze(-1)
         tol = e2.tolerance(dtype, A, path)
-        with e2.configuration(d["cfg"]) as lines:
+        with e2.configuration(dict(d["cfg"], precond_rank=d.get("prank", 0))) as lines:
             calls = [("op.solve(vector)", lambda: op.solve(B["vec"]), X["vec"]) if not d["b"] else None,
                      ("op.solve(matrix)", lambda: op.solve(B["mat"]), X["mat"]),
                      ("op.solve(broadcast-batched rhs)", lambda: op.solve(B["bc"]), X["bc"]),
@@ -46,7 +44,20 @@ def _replay(beh):
                 if got.dtype != dtype:
                     fails.append((label, "dtype %s != operator dtype %s" % (got.dtype, dtype)))
                 err = float((got.to(torch.float64) - ref).abs().max()) / max(1e-30, float(ref.abs().max()))
-                if not err <= tol:
+                if beh.get("big") and path.startswith("cg"):
+                    # large systems on the CG path (more unknowns than the 10 mandatory iterations): the property's criterion is the
+                    # residual against the configured tolerance; the left-factor form has no residual of its own and is only executed
+                    if "left factor" not in label:
+                        vec = "vector" in label
+                        Bk = (B["vec"] if vec else (B["bc"] if "broadcast" in label else B["mat"])).to(torch.float64)
+                        Xg = got.to(torch.float64)
+                        if vec:
+                            Bk, Xg = Bk.unsqueeze(-1), Xg.unsqueeze(-1)
+                        res_rel = ((A @ Xg - Bk).norm(dim=-2) / Bk.norm(dim=-2).clamp_min(1e-30)).mean()
+                        cg_tol = e2.CG_TOL_SMALL if d["cfg"]["cg_tol_small"] else 1.0
+                        if not float(res_rel) <= 1.5 * max(cg_tol, 1e-5):
+                            fails.append((label, "mean relative residual %.3g exceeds the configured CG tolerance %.3g" % (float(res_rel), cg_tol)))
+                elif not err <= tol:
                     fails.append((label, "relative error %.3g > %.3g (selection path %s)" % (err, tol, path)))
             obs = e2.observed_path(lines)
     except Exception as e:  # noqa
@@ -58,7 +69,7 @@ def run(tier, seed):
     res = core.Result(PROP, tier, seed)
     r, behs = e2.generate(tier, seed, "c04")
     res.add_tlc("MC_E2", r)
-    b0 = copy.deepcopy(behs[0])
+    b0 = copy.deepcopy(next(b for b in behs if not b.get("big")))
     b0["solve"]["mat"]["nums"][0] += 7 * abs(b0["solve"]["mat"]["dens"][0])
     if not _replay(b0)[0]:
         raise core.MachineryError("canary: corrupted exact solution not rejected")
